@@ -141,6 +141,22 @@ def _inits():
         ('from_table', lambda: dictable(dictable(a=[1, 'x'], b=[DT, None])), Model(['a', 'b'], [dict(a=1, b=DT), dict(a='x', b=None)])),
         ('zip_pairs', lambda: dictable([('a', [1, None]), ('b', ['x', 'x'])]), Model(['a', 'b'], [dict(a=1, b='x'), dict(a=None, b='x')])),
     ]
+    # records with every key ORDER: each record is an ordered selection of keys from {a, b} (a, b, ab, ba); all lists of 1..2 such
+    # records and the 3-record lists that mix both orders -- the same key set in a different order must still land in the right columns
+    shapes = [['a'], ['b'], ['a', 'b'], ['b', 'a']]
+    cells = [1, 'x', None, 2.5, DT, 1]
+    combos = [[s1] for s1 in shapes] + [[s1, s2] for s1 in shapes for s2 in shapes] + \
+             [[['a', 'b'], ['b', 'a'], ['a', 'b']], [['b', 'a'], ['a', 'b'], ['b', 'a']], [['b', 'a'], ['b', 'a'], ['a', 'b']], [['a', 'b'], ['b'], ['b', 'a']]]
+    for combo in combos:
+        recs, v = [], 0
+        for shp in combo:
+            r = {}
+            for k in shp:
+                r[k] = cells[v % len(cells)]
+                v += 1
+            recs.append(r)
+        name = 'records:' + '|'.join(''.join(shp) for shp in combo)
+        I.append((name, (lambda recs=recs: dictable([dict(r) for r in recs])), Model.from_records(recs)))
     BAD = [
         ('mismatch_cols', lambda: dictable(a=[1, 2.5], b=[1, 2.5, 'x'])),
         ('mismatch_dict', lambda: dictable(dict(a=[1, 2.5, None], b=[1, 2.5])),),
@@ -185,6 +201,7 @@ def operand_specs(cols):
     specs = [
         ('rec', Model.from_records([dict(a=1, c='x')]), lambda: dict(a=1, c='x')),
         ('recs', Model.from_records([dict(a=2.5), dict(b=None, c=DT)]), lambda: [dict(a=2.5), dict(b=None, c=DT)]),
+        ('recs_perm', Model.from_records([dict(a=2.5, c=None), dict(c=DT, a='x')]), lambda: [dict(a=2.5, c=None), dict(c=DT, a='x')]),
         ('empty', Model([], []), lambda: dictable()),
     ]
     z = free[0] if free else 'a'
